@@ -127,6 +127,59 @@ pub fn ghost_twins() -> Vec<(Pos, Pos)> {
             }
         }
     }
+    // castling that mates (the search's first choice, so the line below it is the principal
+    // variation and its results are cached as exact): K e1 + R h1 / a1 + Q anywhere, k anywhere
+    for (rook_home, right) in [(7usize, 0usize), (0usize, 1usize)] {
+        for q in 0..64usize {
+            for bk in 0..64usize {
+                if [4, rook_home, q].contains(&bk) || [4, rook_home].contains(&q) {
+                    continue;
+                }
+                let mut p = Pos::empty();
+                p.sq[4] = Some((Side::W, Kind::K));
+                p.sq[rook_home] = Some((Side::W, Kind::R));
+                p.sq[q] = Some((Side::W, Kind::Q));
+                p.sq[bk] = Some((Side::B, Kind::K));
+                p.castle[right] = true;
+                p.stm = Side::W;
+                if p.validity().is_err() {
+                    continue;
+                }
+                let castle = Mv { from: 4, to: if rook_home == 7 { 6 } else { 2 }, promo: None };
+                if p.legal_moves().contains(&castle) && p.make(castle).is_checkmate() {
+                    bases.push(p);
+                }
+            }
+        }
+    }
+    // castling that attacks: the rook lands on the f- / d-file with the black king on or next to
+    // it and a loose black piece around, so that castling is often the search's first choice (how
+    // often is counted when the histories are run: only then are the results below it cached as exact)
+    for (rook_home, right, king_files) in [(7usize, 0usize, [5i32, 6, 7]), (0usize, 1usize, [3i32, 2, 1])] {
+        for kf in king_files {
+            for kr in 1..7i32 {
+                let bk = sq_at(kf, kr).unwrap() as usize;
+                for kind in [Kind::B, Kind::R] {
+                    for ps in 24..48usize {
+                        if ps == bk {
+                            continue;
+                        }
+                        let mut p = Pos::empty();
+                        p.sq[4] = Some((Side::W, Kind::K));
+                        p.sq[rook_home] = Some((Side::W, Kind::R));
+                        p.sq[bk] = Some((Side::B, Kind::K));
+                        p.sq[ps] = Some((Side::B, kind));
+                        p.castle[right] = true;
+                        p.stm = Side::W;
+                        let castle = Mv { from: 4, to: if rook_home == 7 { 6 } else { 2 }, promo: None };
+                        if p.validity().is_ok() && p.legal_moves().contains(&castle) {
+                            bases.push(p);
+                        }
+                    }
+                }
+            }
+        }
+    }
     // en passant: white pawn e5, black pawn d5 just pushed, a black rook behind it on d8, kings around
     for wk in [0u8, 6, 16, 23, 4] {
         for bk in [63u8, 57, 47, 40, 62, 55] {
